@@ -88,12 +88,45 @@ func (d *ScalarDom) byteBits(v Val) (SByte, bool) {
 }
 
 func (d *ScalarDom) BinOp(in *Interp, op token.Token, x, y Val, xt types.Type, pos ssa.Instruction) Val {
+	if _, isC := x.(Int); isC && (op == token.AND || op == token.OR || op == token.XOR) {
+		if _, isB := y.(SByte); isB {
+			x, y = y, x // commutative: constant on the right
+		}
+	}
 	if bx, ok := x.(SByte); ok {
 		if c, ok := y.(Int); ok {
 			var r SByte
+			if op == token.SHL || op == token.SHR {
+				// shift of a byte by a constant: bits move, vacated positions are zero (uint8 arithmetic)
+				k := int(c.V.Int64())
+				for j := 0; j < 8; j++ {
+					src := j - k
+					if op == token.SHR {
+						src = j + k
+					}
+					if src >= 0 && src < 8 {
+						r.Bits[j] = bx.Bits[src]
+					} else {
+						r.Bits[j] = d.RZ.Int(0)
+					}
+				}
+				return r
+			}
 			for j := 0; j < 8; j++ {
 				bit := c.V.Bit(j)
 				switch op {
+				case token.AND_NOT:
+					if bit == 1 {
+						r.Bits[j] = d.RZ.Int(0)
+					} else {
+						r.Bits[j] = bx.Bits[j]
+					}
+				case token.XOR:
+					if bit == 1 {
+						r.Bits[j] = d.RZ.Int(1).Sub(bx.Bits[j])
+					} else {
+						r.Bits[j] = bx.Bits[j]
+					}
 				case token.AND:
 					if bit == 1 {
 						r.Bits[j] = bx.Bits[j]
